@@ -519,16 +519,43 @@ class Exec:
             self.vars[name] = v
             return v
         if self.c.py_mode:
-            kind = self.c.inputs.get(name, "obj")
-            if kind == "int":
-                v = Val("int", z3.Int(name), PYINT)
-            elif kind == "float":
-                v = Val("float", z3.Const(name, self.fm.F), PYFLOAT)
-            else:
-                v = Val("obj", None, OBJ)
+            v = self.make_input(name, self.c.inputs.get(name, "obj"))
             self.vars[name] = v
             return v
         raise Undecidable(f"unknown name {name}")
+
+    def make_input(self, name, kind):
+        """py_mode: symbolic input of the region, typed by the contract:
+        "int" | "float" | "bool" | "obj" | "arr:<elem>:<ndim>" (elem: int8, int32, int64, bool, float32, float64)"""
+        safe = name.replace(".", "_")
+        if kind == "int":
+            return Val("int", z3.Int(safe), PYINT)
+        if kind == "bool":
+            t = z3.Int(safe)
+            self.facts.append(z3.Or(t == 0, t == 1))
+            return Val("int", t, scalar_type("bint"))
+        if kind == "float":
+            return Val("float", z3.Const(safe, self.fm.F), PYFLOAT,
+                       nan=z3.Bool(safe + "_nan") if self.c.nan_aware else None)
+        if kind.startswith("arr:"):
+            _, el, nd = kind.split(":")
+            et = {"int8": "INT8TYPE_t", "int16": "INT16TYPE_t", "int32": "INT32TYPE_t", "int64": "INT64TYPE_t",
+                  "bool": "BOOLTYPE_t", "float32": "FLOAT32TYPE_t", "float64": "FLOAT64TYPE_t"}[el]
+            a = ArrObj(safe, scalar_type(et), int(nd), self.fm)
+            a.is_bool = (el == "bool")
+            self.objs[a.id] = a
+            self.heap[a.id] = z3.Const(f"{safe}__c0", a.sort)
+            self.entry_heap[a.id] = self.heap[a.id]
+            for sh in a.shape:
+                self.facts.append(sh >= 0)
+            if a.is_bool:
+                qs = [z3.Int(f"bq{d}!{next(self.n)}") for d in range(a.ndim)]
+                el_ = self.select(a, qs)
+                self.facts.append(z3.ForAll(qs, z3.Or(el_ == 0, el_ == 1)))
+            if self.c.nan_aware and a.elem.kind == "float":
+                self.nan_heap(a)
+            return Val("arr", a, T("arr", elem=a.elem, ndim=a.ndim))
+        return Val("obj", None, OBJ)
 
     def havoc_scalar(self, name, ty):
         if ty is None:
@@ -565,6 +592,8 @@ class Exec:
 
     def ev_UnaryOp(self, n):
         v = self.ev(n.operand)
+        if self.c.py_mode and v.k == "arr" and isinstance(n.op, ast.Invert) and getattr(v.t, "is_bool", False):
+            return self.elementwise(lambda x: z3.If(self.to_bool(x), z3.IntVal(0), z3.IntVal(1)), v)
         if isinstance(n.op, ast.Not):
             return self.mk_bool(z3.Not(self.to_bool(v)))
         if isinstance(n.op, ast.USub):
@@ -626,7 +655,43 @@ class Exec:
                     ast.Eq: x == y, ast.NotEq: x != y, ast.Is: x == y, ast.IsNot: x != y}[type(op)]
         raise Undecidable(f"comparison of {a.k} and {b.k}")
 
+    def elementwise(self, f, *vals, elem="BOOLTYPE_t"):
+        """new array whose element at index q is f(element values at q) (NumPy broadcasting of scalars only)"""
+        arrs = [v for v in vals if v.k == "arr"]
+        a0 = arrs[0].t
+        for v in arrs[1:]:
+            for d in range(a0.ndim):
+                self.oblige("shape", f"elementwise operation: operand shapes agree (axis {d})",
+                            v.t.shape[d] == a0.shape[d]) if v.t.ndim == a0.ndim else None
+            if v.t.ndim != a0.ndim:
+                raise Undecidable("broadcasting between arrays of different rank")
+        qs = [z3.Int(f"e{d}!{next(self.n)}") for d in range(a0.ndim)]
+        elems = []
+        for v in vals:
+            if v.k == "arr":
+                elems.append(self.elem_val(v.t, self.select(v.t, qs), qs))
+            else:
+                elems.append(v)
+        body = f(*elems)
+        et = scalar_type(elem)
+        r = ArrObj(f"ew_{next(self.n)}", et, a0.ndim, self.fm, shape=list(a0.shape), fresh=True)
+        r.contig = True
+        r.is_bool = (elem == "BOOLTYPE_t")
+        self.objs[r.id] = r
+        term = body
+        for q in reversed(qs):
+            term = z3.Lambda([q], term)
+        self.heap[r.id] = term
+        return Val("arr", r, T("arr", elem=et, ndim=a0.ndim))
+
     def ev_Compare(self, n):
+        if self.c.py_mode and len(n.ops) == 1:
+            l0, r0 = self.ev(n.left), self.ev(n.comparators[0])
+            if l0.k == "arr" or r0.k == "arr":
+                op = n.ops[0]
+                return self.elementwise(lambda a, b: z3.If(self.cmp(op, a, b, n), z3.IntVal(1), z3.IntVal(0)), l0, r0)
+            acc = self.cmp(n.ops[0], l0, r0, n)
+            return self.mk_bool(acc)
         left = self.ev(n.left)
         acc = None
         for op, rn in zip(n.ops, n.comparators):
@@ -729,6 +794,22 @@ class Exec:
         return self.binop(n.op, a, b, n)
 
     def binop(self, op, a, b, n):
+        if self.c.py_mode and (a.k == "arr" or b.k == "arr") and a.k in ("arr", "int", "float", "bool") \
+                and b.k in ("arr", "int", "float", "bool"):
+            isb = lambda v: v.k != "arr" or getattr(v.t, "is_bool", False)      # noqa
+            if isinstance(op, (ast.BitAnd, ast.BitOr)) and isb(a) and isb(b):
+                comb = z3.And if isinstance(op, ast.BitAnd) else z3.Or
+                return self.elementwise(lambda x, y: z3.If(comb(self.to_bool(x), self.to_bool(y)), z3.IntVal(1), z3.IntVal(0)), a, b)
+            if isinstance(op, (ast.Add, ast.Sub, ast.Mult, ast.Div)):
+                fl = any((v.k == "arr" and v.t.elem.kind == "float") or v.k == "float" for v in (a, b)) or isinstance(op, ast.Div)
+                if fl:
+                    return self.elementwise(lambda x, y: self.arith_float(op, x, y, n).t, a, b, elem="FLOAT64TYPE_t")
+                saved = self.spec_mode
+                self.spec_mode = True       # NumPy integer arithmetic: no C overflow obligations here
+                try:
+                    return self.elementwise(lambda x, y: self.arith_int(op, x, y, n).t, a, b, elem="INT64TYPE_t")
+                finally:
+                    self.spec_mode = saved
         if a.k == "ptr" or b.k == "ptr":
             p, o = (a, b) if a.k == "ptr" else (b, a)
             off = self.to_int(o)
@@ -820,6 +901,15 @@ class Exec:
         return Val("obj", None, OBJ)
 
     def ev_Attribute(self, n):
+        if self.c.py_mode and isinstance(n.value, ast.Name) and n.value.id == "self" and "self" not in self.c.inputs:
+            key = "self." + n.attr
+            if key not in self.vars:
+                kind = self.c.inputs.get(key)
+                if kind is None:
+                    return Val("method", (Val("obj", None, OBJ), n.attr))
+                self.vars[key] = self.make_input(key, kind)
+                self.entry_vars.setdefault(key, self.vars[key])
+            return self.vars[key]
         v = self.ev(n.value)
         if v.k == "mod":
             return Val("func", f"{v.t}.{n.attr}")
@@ -1046,7 +1136,9 @@ class Exec:
         facts = self.c.call_facts.get(fn)
         if facts:
             arity = facts.get("returns", 1)
-            if arity == 1:
+            if isinstance(arity, str):
+                res = self.make_input(f"ret_{fn.replace('.', '_')}_{next(self.n)}", arity)
+            elif arity == 1:
                 res = self.havoc_scalar("ret", scalar_type("long")) if facts.get("type") == "int" else Val("obj", None, OBJ)
             else:
                 res = Val("tuple", [self.havoc_scalar(f"ret{q}", scalar_type("long")) if t == "int" else Val("obj", None, OBJ)
@@ -1440,6 +1532,9 @@ class Exec:
                 raise Undecidable("pointer assignment")
             self.vars[tgt.id] = self.coerce(val, ty, node, tgt.id)
             return
+        if isinstance(tgt, ast.Attribute) and self.c.py_mode and isinstance(tgt.value, ast.Name) and tgt.value.id == "self":
+            self.vars["self." + tgt.attr] = val
+            return
         if isinstance(tgt, (ast.Tuple, ast.List)):
             if val.k == "row":
                 a, idx, _ = val.t
@@ -1455,6 +1550,8 @@ class Exec:
                 raise Undecidable("tuple assignment arity")
             for t, v in zip(tgt.elts, val.t):
                 self.assign_target(t, v, node)
+            return
+        if isinstance(tgt, ast.Subscript) and self.c.py_mode and self.numpy_store(tgt, val, node):
             return
         if isinstance(tgt, ast.Subscript):
             base = self.ev(tgt.value)
@@ -1497,6 +1594,69 @@ class Exec:
                 return
             raise Undecidable(f"store into {base.k}")
         raise Undecidable("assignment target")
+
+    def numpy_store(self, tgt, val, node):
+        """NumPy assignment forms of the Python glue (py_mode).  Returns True when handled.
+             A[mask] = s           elements where the same-shape boolean mask is true
+             A[mask1d, :] = s      rows selected by a 1-d boolean mask;  A[:, mask1d] = s  columns
+             A.flat[::k] = s       every k-th element in row-major order
+        s must be a scalar."""
+        if val.k not in ("int", "float", "bool"):
+            return False
+        items = self.index_list(tgt.slice)
+        # A.flat[::k] = s
+        if isinstance(tgt.value, ast.Attribute) and tgt.value.attr == "flat" and len(items) == 1 and \
+                isinstance(items[0], ast.Slice) and items[0].lower is None and items[0].upper is None and items[0].step is not None:
+            base = self.ev(tgt.value.value)
+            if base.k != "arr" or base.t.ndim != 2:
+                return False
+            a = base.t
+            k = self.to_int(self.ev(items[0].step))
+            self.oblige("divzero", f"{src_of(tgt)}: slice step > 0", k > 0, tgt)
+            sv = self.elem_store(a, val, tgt)
+            i, j = z3.Int(f"f0!{next(self.n)}"), z3.Int(f"f1!{next(self.n)}")
+            old = self.heap[a.id]
+            self.heap[a.id] = z3.Lambda([i], z3.Lambda([j], z3.If((i * a.shape[1] + j) % k == 0, sv, z3.Select(z3.Select(old, i), j))))
+            return True
+        base = self.ev(tgt.value)
+        if base.k != "arr":
+            return False
+        a = base.t
+        masks = []
+        for it in items:
+            if isinstance(it, ast.Slice):
+                if it.lower is not None or it.upper is not None or it.step is not None:
+                    return False
+                masks.append(None)
+            else:
+                m = self.ev(it)
+                if m.k != "arr" or not getattr(m.t, "is_bool", False):
+                    return False
+                masks.append(m.t)
+        if not any(m is not None for m in masks):
+            return False
+        sv = self.elem_store(a, val, tgt)
+        qs = [z3.Int(f"s{d}!{next(self.n)}") for d in range(a.ndim)]
+        if len(masks) == 1 and masks[0].ndim == a.ndim:
+            for d in range(a.ndim):
+                self.oblige("shape", f"{src_of(tgt)}: boolean mask has the shape of the array (axis {d})",
+                            masks[0].shape[d] == a.shape[d], tgt)
+            cond = self.select(masks[0], qs) != 0
+        elif len(masks) == a.ndim and all(m is None or m.ndim == 1 for m in masks):
+            conds = []
+            for d, m in enumerate(masks):
+                if m is not None:
+                    self.oblige("shape", f"{src_of(tgt)}: 1-d boolean mask has the length of axis {d}", m.shape[0] == a.shape[d], tgt)
+                    conds.append(self.select(m, [qs[d]]) != 0)
+            cond = z3.And(*conds)
+        else:
+            return False
+        old = self.heap[a.id]
+        term = z3.If(cond, sv, self.select(a, qs))
+        for q in reversed(qs):
+            term = z3.Lambda([q], term)
+        self.heap[a.id] = term
+        return True
 
     def elem_store(self, a, v, node):
         e = a.elem
